@@ -310,6 +310,10 @@ def _immutable_result(expr, fi) -> bool:
     return False
 
 
+# public memoised functions whose mutable result was confirmed by reading never to be written by library or documented use: (module, qualname) -> reason
+PUBLIC_MEMO_OK = {}
+
+
 def r6_memoised_results(ctx, modules=None):
     """A memoised function hands the SAME object to every caller with equal arguments.  If that object is a mutable array and reaches code that may
     write into it (it is returned further, stored, or written in place), one caller's write shows up in another caller's 'new' result.  Every
@@ -378,6 +382,8 @@ def r6_memoised_results(ctx, modules=None):
                 escapes.append(f"{where}: written in place")
             elif isinstance(up, ast.Subscript) and up.value is hit and isinstance(up.ctx, ast.Store):
                 escapes.append(f"{where}: written in place")
+        if not name.startswith("_") and not fi.qualname.split(".")[-2:-1] == ["<locals>"] and (fi.module.name, fi.qualname) not in PUBLIC_MEMO_OK:
+            escapes.append(f"{fi.qualname} is public API: the memoised object is handed to user code, which may change it")
         ctx.ob(fi.where, f"memoised `{fi.qualname}` returns a mutable object: its result is only ever used as an operand (never returned further, stored, or written in place), "
                "so no caller can change what another caller gets", not escapes, "; ".join(escapes[:4]) or f"{uses} uses, all operands", key=f"C20-R6|shared-result|{fi.module.name}|{fi.qualname}", definite=True)
     ctx.floor("memoised functions examined", n, 7 if modules is None else 0)
